@@ -40,7 +40,10 @@ def build_bs(extra=False):
             raise H.Broken("no IR for " + n)
         ll.append(max(fs, key=os.path.getmtime))
     if extra:
-        for n in ('bincode', 'serde', 'emap', 'micromap', 'microstack', 'hashbrown', 'xml_builder'):
+        names = ('bincode', 'serde', 'emap', 'micromap', 'microstack', 'hashbrown', 'xml_builder')
+        if extra == 'script':
+            names += ('regex', 'regex_automata', 'regex_syntax', 'aho_corasick', 'memchr', 'log')
+        for n in names:
             fs = sorted(glob.glob(os.path.join(deps, n + '-*.ll')))
             if not fs:
                 raise H.Broken("no IR for " + n)
